@@ -349,4 +349,414 @@ theorem setTargetName_inv {s : State} (i : Inv s) {o : ObjId} (ho : s.alive o = 
     · subst hx; rw [upd_same]; exact normName_ne n
     · rw [upd_other _ _ hx]; exact i.comp_ne x
 
+/-! ### destruction -/
+
+theorem nullRefs_listOf (s : State) (o : ObjId) (m : Name) :
+    listOf (nullRefs s o) m = (listOf s m).map (nullRef o) := by
+  unfold listOf nullRefs
+  simp only
+  cases s.tbl m with
+  | none => rfl
+  | some l =>
+    show (Option.map (fun x => List.map (nullRef o) x) (s.lists l)).getD [] = _
+    cases e : s.lists l <;> simp [e]
+
+theorem nullRefs_wf {s : State} (w : Wf s) (o : ObjId) : Wf (nullRefs s o) := by
+  refine ⟨w.tbl0, w.inj, w.fresh, ?_⟩
+  intro n l h
+  obtain ⟨rs, h1, h2⟩ := w.nonempty n l h
+  refine ⟨rs.map (nullRef o), by simp [nullRefs, h1], by simpa using h2⟩
+
+theorem removeListener_fields (s : State) (o : ObjId) (n : Name) :
+    (removeListener s o n).alive = s.alive ∧ (removeListener s o n).nextObj = s.nextObj ∧
+    (removeListener s o n).comp = s.comp ∧ (removeListener s o n).log = s.log ∧
+    (removeListener s o n).vals = s.vals ∧ (removeListener s o n).cnt = s.cnt ∧
+    (removeListener s o n).fld = s.fld ∧ (removeListener s o n).out = s.out := by
+  unfold removeListener
+  simp only
+  repeat' split
+  all_goals simp
+
+theorem destroy_fields (s : State) (o : ObjId) :
+    (destroy s o).alive = upd s.alive o false ∧ (destroy s o).nextObj = s.nextObj ∧
+    (destroy s o).comp = s.comp ∧ (destroy s o).log = s.log ++ [.destroyed o] ∧
+    (destroy s o).cnt = s.cnt ∧ (destroy s o).fld = s.fld ∧ (destroy s o).out = s.out := by
+  obtain ⟨a, b, c, d, e, f, g, h⟩ := removeListener_fields s o (s.comp o)
+  simp [destroy, nullRefs, a, b, c, d, f, g, h]
+
+theorem destroy_listOf {s : State} (i : Inv s) (o : ObjId) (m : Name) :
+    listOf (destroy s o) m = ((bearers s.log m).filter (· ≠ o)).map some := by
+  have e1 : listOf (destroy s o) m = listOf (nullRefs (removeListener s o (s.comp o)) o) m := rfl
+  rw [e1, nullRefs_listOf, removeListener_listOf i.toWf, removed_listOf i]
+  exact map_nullRef_some (fun h => (mem_filter_ne.mp h).2 rfl)
+
+theorem destroy_inv {s : State} (i : Inv s) (o : ObjId) : Inv (destroy s o) := by
+  obtain ⟨f1, f2, f3, f4, -⟩ := destroy_fields s o
+  have hb : ∀ m, bearers (destroy s o).log m = (bearers s.log m).filter (· ≠ o) := by
+    intro m; rw [f4, bearers_append]; rfl
+  have w : Wf (destroy s o) :=
+    (nullRefs_wf (removeListener_wf i.toWf o (s.comp o)) o).of_same rfl rfl rfl
+  refine ⟨w, ?_, ?_, ?_, ?_, ?_⟩
+  · intro m; rw [destroy_listOf i, hb]
+  · intro m x hx
+    rw [hb] at hx
+    obtain ⟨h1, h2⟩ := mem_filter_ne.mp hx
+    obtain ⟨a, b, c⟩ := i.bearer _ x h1
+    rw [f1, f3]
+    exact ⟨by rw [upd_other _ _ h2]; exact a, b, c⟩
+  · intro m; rw [hb]; exact (i.nodup m).filter _
+  · intro x hx
+    rw [f1] at hx
+    rw [f2]
+    by_cases e : x = o
+    · subst e; simp at hx
+    · rw [upd_other _ _ e] at hx; exact i.alive_lt x hx
+  · rw [f3]; exact i.comp_ne
+
+theorem spawnObj_inv {s : State} (i : Inv s) : Inv (spawnObj s) := by
+  have hb : bearers (spawnObj s).log = bearers s.log := by
+    show bearers (s.log ++ [.spawned s.nextObj]) = _
+    rw [bearers_append]; rfl
+  have hne : ∀ n x, x ∈ bearers s.log n → x ≠ s.nextObj := fun n x hx e =>
+    absurd (i.alive_lt x (i.bearer n x hx).1) (by rw [e]; exact Nat.lt_irrefl _)
+  refine ⟨i.toWf.of_same rfl rfl rfl, ?_, ?_, ?_, ?_, ?_⟩
+  · intro n; rw [hb]; exact i.refine n
+  · intro n x hx
+    rw [hb] at hx
+    obtain ⟨a, b, c⟩ := i.bearer n x hx
+    have := hne n x hx
+    exact ⟨by simp [spawnObj, upd_other _ _ this, a], by simp [spawnObj, upd_other _ _ this, b], c⟩
+  · rw [hb]; exact i.nodup
+  · intro x hx
+    show x < s.nextObj + 1
+    by_cases e : x = s.nextObj
+    · rw [e]; exact Nat.lt_succ_self _
+    · have : s.alive x = true := by simpa [spawnObj, upd_other _ _ e] using hx
+      exact Nat.lt_succ_of_lt (i.alive_lt x this)
+  · intro x
+    by_cases e : x = s.nextObj
+    · subst e; simp [spawnObj, emptyName]
+    · simpa [spawnObj, upd_other _ _ e] using i.comp_ne x
+
+/-! ### weak references held by script values never designate a destroyed object -/
+
+def Value.live (alive : ObjId → Bool) : Value → Prop
+  | .obj (some o) => alive o = true
+  | .arr rs => ∀ o, some o ∈ rs → alive o = true
+  | _ => True
+
+def ValsLive (s : State) : Prop := ∀ v, (s.vals v).live s.alive
+
+/-- invariant + live values -/
+structure Good (s : State) : Prop where
+  inv : Inv s
+  vals : ValsLive s
+
+theorem init_good : Good init := ⟨init_inv, fun _ => trivial⟩
+
+theorem lists_eq_listOf {s : State} {n : Name} {l : ListId} (h : s.tbl n = some l) :
+    (s.lists l).getD [] = listOf s n := by simp [listOf, h]
+
+theorem mem_listOf_alive {s : State} (i : Inv s) {n : Name} {o : ObjId} (h : some o ∈ listOf s n) :
+    s.alive o = true := by
+  rw [i.refine] at h
+  obtain ⟨x, hx, e⟩ := List.mem_map.mp h
+  cases e
+  exact (i.bearer n o hx).1
+
+theorem evalTarget_live (cfg : Cfg) {s : State} (i : Inv s) (n : Name) :
+    (evalTarget cfg s n).live s.alive := by
+  unfold evalTarget
+  cases e : s.tbl n with
+  | none => trivial
+  | some l =>
+    simp only [lists_eq_listOf e]
+    split
+    · trivial
+    · split
+      · cases h : (listOf s n).head? with
+        | none => trivial
+        | some r =>
+          cases r with
+          | none => trivial
+          | some o => exact mem_listOf_alive i (List.mem_of_mem_head? h)
+      · split
+        · intro o ho; exact mem_listOf_alive i ho
+        · trivial
+
+theorem Value.nullRef_live {alive : ObjId → Bool} {a : Value} (h : a.live alive) (o : ObjId) :
+    (a.nullRef o).live (upd alive o false) := by
+  cases a with
+  | nil => trivial
+  | cont l => trivial
+  | obj r =>
+    cases r with
+    | none => trivial
+    | some p =>
+      by_cases e : p = o
+      · subst e; simp [Value.nullRef, Target.nullRef, Value.live]
+      · have : (some p = some o) = False := by simp [e]
+        simp only [Value.nullRef, Target.nullRef, this, if_false, Value.live, upd_other _ _ e]
+        exact h
+  | arr rs =>
+    intro p hp
+    simp only [List.mem_map] at hp
+    obtain ⟨r, hr, e⟩ := hp
+    unfold Target.nullRef at e
+    split at e
+    · cases e
+    · subst e
+      rename_i hne
+      have hpo : p ≠ o := fun e => hne (by rw [e])
+      rw [upd_other _ _ hpo]
+      exact h p hr
+
+theorem destroy_vals (s : State) (o : ObjId) : (destroy s o).vals = fun v => (s.vals v).nullRef o := by
+  obtain ⟨-, -, -, -, e, -⟩ := removeListener_fields s o (s.comp o)
+  simp [destroy, nullRefs, e]
+
+theorem destroy_good {s : State} (g : Good s) (o : ObjId) : Good (destroy s o) := by
+  refine ⟨destroy_inv g.inv o, ?_⟩
+  intro v
+  rw [destroy_vals, (destroy_fields s o).1]
+  exact Value.nullRef_live (g.vals v) o
+
+theorem setTargetName_good {s : State} (g : Good s) {o : ObjId} (ho : s.alive o = true) (n : Name) :
+    Good (setTargetName s o n) := by
+  refine ⟨setTargetName_inv g.inv ho n, ?_⟩
+  obtain ⟨f1, -, -, -, f5, -⟩ := setTargetName_fields s o n
+  intro v; rw [f1, f5]; exact g.vals v
+
+theorem Value.live_mono {alive alive' : ObjId → Bool} (h : ∀ o, alive o = true → alive' o = true)
+    {a : Value} (ha : a.live alive) : a.live alive' := by
+  cases a with
+  | nil => trivial
+  | cont l => trivial
+  | obj r =>
+    cases r with
+    | none => trivial
+    | some p => exact h p ha
+  | arr rs => exact fun p hp => h p (ha p hp)
+
+theorem spawnObj_good {s : State} (g : Good s) : Good (spawnObj s) := by
+  refine ⟨spawnObj_inv g.inv, ?_⟩
+  intro v
+  refine Value.live_mono ?_ (g.vals v)
+  intro o ho
+  have : o ≠ s.nextObj := fun e => absurd (g.inv.alive_lt o ho) (by rw [e]; exact Nat.lt_irrefl _)
+  simp [spawnObj, upd_other _ _ this, ho]
+
+theorem Good.of_same {s s' : State} (g : Good s) (h1 : s'.tbl = s.tbl) (h2 : s'.lists = s.lists)
+    (h3 : s'.nextList = s.nextList) (h4 : bearers s'.log = bearers s.log) (h5 : s'.alive = s.alive)
+    (h6 : s'.comp = s.comp) (h7 : s'.nextObj = s.nextObj) (h8 : s'.vals = s.vals) : Good s' :=
+  ⟨g.inv.of_same h1 h2 h3 h4 h5 h6 h7, by intro v; rw [h5, h8]; exact g.vals v⟩
+
+/-! ### statements preserve the invariant -/
+
+/-- a predicate holds of the outcome (vacuously for `ub`) -/
+def Res.All (P : State → Prop) : Res → Prop
+  | .ok s => P s
+  | .ub => True
+
+theorem Res.All_bind {P : State → Prop} {r : Res} {f : State → Res} (h : r.All P)
+    (hf : ∀ s, P s → (f s).All P) : (r.bind f).All P := by
+  cases r with
+  | ok s => exact hf s h
+  | ub => trivial
+
+theorem say_good {s : State} (g : Good s) (t : String) : Good (say s t) :=
+  g.of_same rfl rfl rfl rfl rfl rfl rfl rfl
+
+theorem sayId_good {s : State} (g : Good s) (tag : String) (r : WeakRef) : Good (sayId s tag r) := by
+  unfold sayId; split <;> exact say_good g _
+
+theorem visited_good {s : State} (g : Good s) (o : ObjId) : Good { s with log := s.log ++ [.visited o] } :=
+  g.of_same rfl rfl rfl (by show bearers (s.log ++ [.visited o]) = _; rw [bearers_append]; rfl) rfl rfl rfl rfl
+
+theorem foldl_sayId_good (rs : List WeakRef) {s : State} (g : Good s) :
+    Good (rs.foldl (fun st r => sayId st "e" r) s) := by
+  induction rs generalizing s with
+  | nil => exact g
+  | cons a t ih => exact ih (sayId_good g _ a)
+
+theorem resolve_live {s : State} {self : Option ObjId} {w : Who} {o : ObjId}
+    (h : resolve s self w = .live o) : s.alive o = true := by
+  unfold resolve at h
+  cases w with
+  | self =>
+    cases self with
+    | none => simp at h
+    | some p =>
+      simp only at h
+      split at h
+      · cases h; assumption
+      · cases h
+  | obj k =>
+    simp only at h
+    split at h
+    · cases h
+    · split at h
+      · cases h; assumption
+      · cases h
+
+theorem sayIndex_good {s : State} (g : Good s) (a : Value) (k : Nat) : (sayIndex s a k).All Good := by
+  unfold sayIndex
+  cases a with
+  | nil => exact say_good g _
+  | obj r => simp only; split <;> first | exact sayId_good g _ _ | exact say_good (say_good g _) _
+  | cont l =>
+    simp only
+    cases s.lists l with
+    | none => trivial
+    | some rs => simp only; split <;> first | exact sayId_good g _ _ | exact say_good (say_good g _) _
+  | arr rs => simp only; split <;> first | exact sayId_good g _ _ | exact say_good (say_good g _) _
+
+theorem evalSrc_live (cfg : Cfg) {s : State} (g : Good s) (src : Src) : (evalSrc cfg s src).live s.alive := by
+  cases src with
+  | name n => exact evalTarget_live cfg g.inv n
+  | val v => exact g.vals v
+
+theorem act_good (cfg : Cfg) (self : Option ObjId) {s : State} (g : Good s) (a : Act) :
+    (act cfg self s a).All Good := by
+  cases a with
+  | spawn n =>
+    simp only [act]
+    split
+    · exact say_good g _
+    · split
+      · exact say_good (spawnObj_good g) _
+      · refine say_good (setTargetName_good (spawnObj_good g) ?_ n) _
+        simp [spawnObj]
+  | setName w n =>
+    simp only [act]
+    split
+    · exact say_good g _
+    · exact say_good g _
+    · rename_i o h; exact setTargetName_good g (resolve_live h) n
+  | delete w =>
+    simp only [act]
+    split
+    · exact say_good g _
+    · exact say_good g _
+    · exact destroy_good g _
+  | mark w =>
+    simp only [act]
+    split
+    · exact g.of_same rfl rfl rfl rfl rfl rfl rfl rfl
+    · exact say_good g _
+  | hello =>
+    simp only [act]
+    split <;> exact say_good g _
+  | capture v n =>
+    refine ⟨g.inv.of_same rfl rfl rfl rfl rfl rfl rfl, ?_⟩
+    intro k
+    show (upd s.vals v (evalTarget cfg s n) k).live s.alive
+    by_cases e : k = v
+    · subst e; rw [upd_same]; exact evalTarget_live cfg g.inv n
+    · rw [upd_other _ _ e]; exact g.vals k
+  | copy v w =>
+    refine ⟨g.inv.of_same rfl rfl rfl rfl rfl rfl rfl, ?_⟩
+    intro k
+    show (upd s.vals v (s.vals w) k).live s.alive
+    by_cases e : k = v
+    · subst e; rw [upd_same]; exact g.vals w
+    · rw [upd_other _ _ e]; exact g.vals k
+  | query src =>
+    simp only [act]
+    split
+    · exact foldl_sayId_good _ (say_good g _)
+    · trivial
+  | size src =>
+    simp only [act]
+    split
+    · exact say_good g _
+    · trivial
+  | index src k => exact sayIndex_good g _ k
+
+theorem acts_good (cfg : Cfg) (self : Option ObjId) (h : List Act) {s : State} (g : Good s) :
+    (acts cfg self h s).All Good := by
+  induction h generalizing s with
+  | nil => exact g
+  | cons a t ih => exact Res.All_bind (act_good cfg self g a) (fun s' g' => ih g')
+
+theorem fanLoop_good {run : State → ObjId → Res}
+    (hrun : ∀ s o, Good s → s.alive o = true → (run s o).All Good)
+    (rs : List WeakRef) {s : State} (g : Good s) : (fanLoop run rs s).All Good := by
+  induction rs generalizing s with
+  | nil => exact g
+  | cons r t ih =>
+    cases r with
+    | none => exact ih g
+    | some o =>
+      simp only [fanLoop]
+      split
+      · rename_i ho
+        exact Res.All_bind (hrun _ o (visited_good g o) ho) (fun s' g' => ih g')
+      · exact ih g
+
+theorem receivers_single_alive {s : State} {a : Value} {o : ObjId} (h : receivers s a = .single o)
+    (ha : a.live s.alive) : s.alive o = true := by
+  cases a with
+  | nil => simp [receivers] at h
+  | obj r =>
+    cases r with
+    | none => simp [receivers] at h
+    | some p => simp only [receivers, Receivers.single.injEq] at h; subst h; exact ha
+  | cont l =>
+    simp only [receivers] at h
+    split at h
+    · cases h
+    · split at h <;> cases h
+  | arr rs =>
+    simp only [receivers] at h
+    split at h <;> cases h
+
+theorem fanOut_good (cfg : Cfg) {run : State → ObjId → Res}
+    (hrun : ∀ s o, Good s → s.alive o = true → (run s o).All Good)
+    (src : Src) {s : State} (g : Good s) : (fanOut cfg s src run).All Good := by
+  unfold fanOut
+  split
+  · exact say_good g _
+  · rename_i o h
+    exact hrun _ _ (visited_good g _) (receivers_single_alive h (evalSrc_live cfg g src))
+  · exact fanLoop_good hrun _ g
+  · trivial
+
+theorem fieldSet_good (cfg : Cfg) (src : Src) (x : Nat) {s : State} (g : Good s) :
+    (fieldSet cfg s src x).All Good := by
+  have hset : ∀ (st : State) (o : ObjId), Good st → st.alive o = true →
+      (Res.ok { st with fld := upd st.fld o x }).All Good :=
+    fun st o gst _ => gst.of_same rfl rfl rfl rfl rfl rfl rfl rfl
+  unfold fieldSet
+  simp only
+  split
+  · exact say_good g _
+  · exact say_good g _
+  · rename_i o h
+    have hl := evalSrc_live cfg g src
+    rw [h] at hl
+    exact hset _ _ (visited_good g _) hl
+  · split
+    · split
+      · exact fanLoop_good hset _ g
+      · trivial
+      · exact say_good g _
+    · exact say_good g _
+
+theorem stmt_good (cfg : Cfg) {s : State} (g : Good s) (st : Stmt) : (stmt cfg s st).All Good := by
+  cases st with
+  | act a => exact act_good cfg none g a
+  | fan src h => exact fanOut_good cfg (fun st o gst _ => acts_good cfg (some o) h gst) src g
+  | fanName src n =>
+    exact fanOut_good cfg (run := fun st o => .ok (setTargetName st o n))
+      (fun st o gst ho => setTargetName_good gst ho n) src g
+  | fanDelete src =>
+    exact fanOut_good cfg (run := fun st o => .ok (destroy st o)) (fun st o gst _ => destroy_good gst o) src g
+  | fieldSet src x => exact fieldSet_good cfg src x g
+
+theorem run_good (cfg : Cfg) (l : List Stmt) {s : State} (g : Good s) : (run cfg l s).All Good := by
+  induction l generalizing s with
+  | nil => exact g
+  | cons a t ih => exact Res.All_bind (stmt_good cfg g a) (fun s' g' => ih g')
+
 end Morfuse.Target
